@@ -84,7 +84,7 @@ func genC06(dir, tier string, seed int64) {
 	r := rand.New(rand.NewSource(seed))
 	n := 240
 	if tier == "thorough" {
-		n = 6000
+		n = 15000
 	}
 	cw := newCaseWriter(dir, "C06_ops", opHeader("CheckC06"), opFooter,
 		"seeded random RNN / GRU / LSTM nodes: seq 1..4, batch 1..3, input 1..3, hidden 1..3 (all combinations incl. hidden = 1 and batch*input = 1), every subset of the optional inputs B, initial_h, initial_c, P (omitted trailing inputs and explicitly skipped ones), default and explicit activation lists over {Sigmoid, Tanh, Relu} in the ONNX and in lower-case spelling (and, one explicit list in five, a name the library does not implement -- Softsign, HardSigmoid, LeakyRelu, Elu, Affine, ThresholdedRelu, ScaledTanh, Softplus, the empty string -- with or without activation_alpha / activation_beta; too short lists), linear_before_reset in {absent,0,1}, input_forget in {absent,0,1}, float32 (float64 rarely: must be computed or refused); weights with pairwise distinct non-zero gate blocks and biases so that any gate or bias-slot swap moves the result far outside the tolerance", false, 60)
